@@ -97,7 +97,7 @@ def run(tier: str, seed: int) -> Result:
         addrs = cfg[5] if len(cfg) > 5 else ("10.0.0.1",)
         dbg = bool(cfg[6]) if len(cfg) > 6 else False
         opts = cfg[7] if len(cfg) > 7 else ""
-        left = max(5.0, (t_end - time.monotonic()) / (len(cfgs) - i))
+        left = max(5.0, (t_end - time.monotonic()) / min(3, len(cfgs) - i))  # most configurations finish far below their share: a hungry one may take a third of what is left
         from .. import world as _world
 
         _world.DEFAULT_DEBUG[0] = dbg
